@@ -79,6 +79,7 @@ def sweep_natives(ctx, tmp, cov, findings):
     st = {"cases": 0, "yielded": 0, "errored": 0, "empty": 0, "halted": 0, "skipped_alloc_guard": 0, "panics": 0,
           "alloc_panics_excepted": 0, "cut_by_time_budget": 0}
     per_target = {}
+    dist = {}       # native/definition/core form -> outcome classes and behaviour diversity
     timeouts, deaths, abandoned, incomplete = [], [], set(), []
     for r in probe + res:
         timeouts += r.timeouts
@@ -97,6 +98,14 @@ def sweep_natives(ctx, tmp, cov, findings):
                 pt = per_target.setdefault(f[1], [0, 0])
                 pt[0] += vals[0]
                 pt[1] += vals[9]
+                if len(f) >= 16:
+                    d = dist.setdefault(f[14], {"kind": f[0], "arity": int(f[15]), "cases": 0, "yielded": 0, "errored": 0, "empty": 0,
+                                                "halted": 0, "panics": 0, "behaviours": 0, "last_new": 0})
+                    for k, v in zip(["cases", "yielded", "errored", "empty", "halted"], vals[:5]):
+                        d[k] += v
+                    d["panics"] += vals[6]
+                    d["behaviours"] = max(d["behaviours"], int(f[12]))     # per worker; a lower bound of the union
+                    d["last_new"] = max(d["last_new"], int(f[13]))
             elif l.startswith("P "):
                 findings.append({"sweep": "natives", "site": f[1], "msg": f[2], "kind": f[3], "name": f[4], "text": f[5],
                                  "input": f[6], "args": f[7], "cli": unhex(f[8]).decode("utf-8", "replace") if len(f) > 8 else ""})
@@ -108,6 +117,30 @@ def sweep_natives(ctx, tmp, cov, findings):
             findings.append({"sweep": "natives", "site": "process-" + cls, "msg": err[-200:], "kind": desc[0], "name": desc[1],
                              "text": desc[2], "input": desc[3], "args": desc[4] if len(desc) > 4 else "", "cli": ""})
     cut_targets = {k: v for k, v in per_target.items() if v[1] > 0}
+    strata = 12 ** 3
+    ar2 = {k: d for k, d in dist.items() if d["arity"] == 2 and tier != "thorough"}
+    classes = {}
+    for k, d in dist.items():
+        cls = "+".join(c for c in ("yielded", "errored", "empty", "halted", "panics") if d[c]) or "nothing-ran"
+        classes.setdefault(d["kind"] + ":" + cls, []).append(k)
+    diversity = {
+        "what": "per native / definition / core form: calls by outcome class (a value, a run-time error, no output, halt/break, panic) and "
+                "the number of distinct behaviours (outcome class x class of the error message) one worker saw; `last_new` is the position "
+                "of the case that showed the last new behaviour",
+        "targets": len(dist),
+        "targets_by_outcome_classes_seen": {k: len(v) for k, v in sorted(classes.items())},
+        "never_yielded_a_value": sorted(k for k, d in dist.items() if d["cases"] and not d["yielded"])[:60],
+        "never_raised_an_error": sorted(k for k, d in dist.items() if d["cases"] and not d["errored"])[:80],
+        "behaviours_per_target_histogram": {str(b): sum(1 for d in dist.values() if d["behaviours"] == b) for b in sorted({d["behaviours"] for d in dist.values()})},
+        "arity2_stratified_prefix": {"positions": strata, "targets": len(ar2),
+                                     "targets_whose_last_new_behaviour_is_inside_the_prefix": sum(1 for d in ar2.values() if d["last_new"] < strata),
+                                     "later": {k: d["last_new"] for k, d in sorted(ar2.items()) if d["last_new"] >= strata}},
+        "natives_x_outcomes": {k: [d["cases"], d["yielded"], d["errored"], d["empty"], d["halted"], d["panics"], d["behaviours"]]
+                               for k, d in sorted(dist.items()) if d["kind"] == "native"},
+        "natives_x_outcomes_columns": ["cases", "yielded", "errored", "empty", "halted", "panics", "behaviours"],
+    }
+    ctx.log("natives x outcomes: %s; arity-2 targets with all behaviours inside the stratified prefix: %d/%d" % (
+        diversity["targets_by_outcome_classes_seen"], diversity["arity2_stratified_prefix"]["targets_whose_last_new_behaviour_is_inside_the_prefix"], len(ar2)))
     cov["natives"] = {
         "label": "SEARCH (not proof): built-in filters x boundary tuples",
         "targets": len(inv), "target_kinds": kinds,
@@ -122,6 +155,7 @@ def sweep_natives(ctx, tmp, cov, findings):
         "targets_abandoned_after_repeated_timeouts": sorted(abandoned),
         "process_deaths": [{"idx": d[0], "class": d[1], "rc": d[2]} for d in deaths][:20],
         "incomplete": incomplete,
+        "diversity": diversity,
     }
     return st["cases"], st["yielded"] + st["errored"]
 
@@ -285,6 +319,9 @@ def replay(ctx):
         out = "exit %s\n%s" % (p.returncode, p.stderr.decode("utf-8", "replace")[-600:])
         if p.returncode == 101 or p.returncode < 0:
             out = "PANIC " + out
+    elif c.get("sweep") == "kernel":
+        run_kernels(ctx)      # the whole correspondence (1 s): reports the case again if it still fails
+        return
     else:
         raise verif.CheckError("replay file has no sweep case")
     print(out)
